@@ -271,8 +271,16 @@ class Hist:
                 return False
         if self.cfg['both_scans']:
             r2 = w.run('diff', multi=not w.multi); self.ncmd += 1
-            if r2.rc != r.rc or (self.cfg['order'] == 'alpha' and counters(r2) != cnt and not any(o[0] in ('copy', 'move') for o in ops)):
-                self.bad('diff_threads', 'diff gives a different verdict with threaded and with sequential scanning: %d %s vs %d %s' % (r.rc, cnt, r2.rc, counters(r2)))
+            c2 = counters(r2)
+
+            def merged(c):
+                # whether a new file is reported `copied` or `added` depends, under threads, on whether the scan of the OTHER disk has
+                # already dropped the record the copy would be taken from (observed: 13/7 of 20 runs on one tree): the two are one class
+                return dict({k: v for k, v in c.items() if k not in ('copied', 'added')}, new=c['copied'] + c['added'])
+            if c2 != cnt and merged(c2) == merged(cnt):
+                self.stats['thread_copy_race_observed'] = self.stats.get('thread_copy_race_observed', 0) + 1
+            if r2.rc != r.rc or (self.cfg['order'] == 'alpha' and merged(c2) != merged(cnt) and not any(o[0] in ('copy', 'move') for o in ops)):
+                self.bad('diff_threads', 'diff gives a different verdict with threaded and with sequential scanning: %d %s vs %d %s' % (r.rc, cnt, r2.rc, c2))
                 return False
         # ---- the sync, with the model predicting the post-scan state and the final state
         sopts = (popts or ['-B', str(self.rng.randint(1, 3))]) if partial else []
@@ -614,7 +622,7 @@ def scripted(chk, binary, shim, model, rng, tier):
         # (c) an incomplete sync whose remaining work is only removals (DELETED blocks under live blocks of another disk), then no change
         how = ['B1', 'S2B1', 'kill', 'B2'][v % 4]
         cfg = {'nd': 2, 'np': 1, 'order': 'alpha', 'uuid': v % 2 == 1, 'multi': False, 'where': 'tmpfs', 'both_scans': v % 2 == 0,
-               'seed': rng.getrandbits(32), 'scripted': 'delete_partial/' + how}
+               'seed': rng.getrandbits(32), 'scripted': 'delete_partial/' + how, 'splits': 1 + (v // 2) % 2}
         H = Hist(chk, binary, shim, model, random.Random(cfg['seed']), cfg)
         try:
             ok = H.step([['create', 'd1', 'X', 5000], ['create', 'd2', 'Y', rng.choice([4100, 5000])], ['create', 'd2', 'keep', 10]])
@@ -784,9 +792,10 @@ def main(tier, replay=None):
                             'on %d arrays, scan orders alpha/inode/dir/physical, with and without usable inodes (fake UUIDs), threaded and sequential scans, tmpfs and ext4 (inode reuse); '
                             'per step diff/sync/diff/list/check judged by the harness walk; non-trivial = steps in which the tree differed from the recorded state' % len(cfgs),
                     'corpus_cases': ncorpus, 'histories': len(cfgs), 'steps': stats.get('steps', 0), 'diff_exit2': stats.get('diff2', 0), 'diff_exit0': stats.get('diff0', 0),
-                    'partial_syncs': stats.get('partial', 0), 'decoy_refusals_then_nocopy': stats.get('decoy_refusals', 0), 'invisible_rewrites_probed': stats.get('invisible', 0), 'inode_reuses_observed': stats.get('inode_reuse', 0),
+                    'partial_syncs': stats.get('partial', 0), 'thread_copy_race_observed': stats.get('thread_copy_race_observed', 0), 'decoy_refusals_then_nocopy': stats.get('decoy_refusals', 0), 'invisible_rewrites_probed': stats.get('invisible', 0), 'inode_reuses_observed': stats.get('inode_reuse', 0),
                     'scan_counters_seen': counts, 'model_predictions_compared': tot['model'], 'traces_validated_against_impl': tot['model']})
     chk.cov['samples'] = samples
+    chk.notes.append('under threaded scanning (the default) copy detection races with the scan of the other disk: a new file with the name, size and time-stamp of the OLD version of a file changed or removed on another disk is reported `copied` or `added`, and a sync of it fails (Unexpected data change) or succeeds, depending on timing; sequentially it depends on the disk order')
     chk.notes.append('`list` prints files and links only (cmdline/list.c has no loop over the directory list): the empty directories of the property statement are judged on the decoded content file instead')
     chk.notes.append('a same-size rewrite in place with restored time-stamp is invisible to diff and sync by the property\'s own wording (only size/time-stamp changes are re-read); the check asserts diff=0, sync no-op, and that `check` reports the block')
     if ob['failed'] and not chk.violations:
